@@ -76,6 +76,69 @@ theorem dyck_check {w : List Ev} (h : Dyck w) : dyckCheck [] w = true := by
   have := dyck_check_aux h [] []
   simpa [dyckCheck] using this
 
+theorem dyck_insert {u : List Ev} (hu : Dyck u) {x : List Ev} (hx : Dyck x) :
+    ∀ a b, u = a ++ b → Dyck (a ++ x ++ b) := by
+  induction hu with
+  | nil =>
+    intro a b h
+    have := List.append_eq_nil_iff.mp h.symm
+    obtain ⟨rfl, rfl⟩ := this
+    simpa using hx
+  | @wrap v w hw ih =>
+    intro a b h
+    cases a with
+    | nil =>
+      simp only [List.nil_append] at h ⊢
+      subst h
+      exact Dyck.append hx (Dyck.wrap v hw)
+    | cons e a' =>
+      simp only [List.cons_append, List.cons.injEq] at h
+      obtain ⟨rfl, h⟩ := h
+      rcases List.eq_nil_or_concat b with rfl | ⟨b', l, rfl⟩
+      · simp only [List.append_nil] at h ⊢
+        subst h
+        exact Dyck.append (Dyck.wrap v hw) hx
+      · rw [List.concat_eq_append, ← List.append_assoc] at h
+        have h2 := List.append_inj' h rfl
+        obtain ⟨hw', hl⟩ := h2
+        cases hl
+        have := Dyck.wrap v (ih a' b' hw')
+        simpa [List.concat_eq_append, List.append_assoc] using this
+  | @append w1 w2 h1 h2 ih1 ih2 =>
+    intro a b h
+    rcases List.append_eq_append_iff.mp h with ⟨c, rfl, rfl⟩ | ⟨c, rfl, rfl⟩
+    · -- a = w1 ++ c, w2 = c ++ b
+      have := Dyck.append h1 (ih2 c b rfl)
+      simpa [List.append_assoc] using this
+    · -- w1 = a ++ c, b = c ++ w2
+      have := Dyck.append (ih1 a c rfl) h2
+      simpa [List.append_assoc] using this
+
+theorem dyck_of_check : ∀ (w : List Ev) (st : List Nat), dyckCheck st w = true →
+    Dyck (st.reverse.map Ev.start ++ w) := by
+  intro w
+  induction w with
+  | nil =>
+    intro st h
+    cases st with
+    | nil => exact Dyck.nil
+    | cons _ _ => simp [dyckCheck] at h
+  | cons e w ih =>
+    intro st h
+    cases e with
+    | start v =>
+      have := ih (v :: st) (by simpa [dyckCheck] using h)
+      simpa [List.append_assoc] using this
+    | stop v =>
+      cases st with
+      | nil => simp [dyckCheck] at h
+      | cons t st' =>
+        simp only [dyckCheck, Bool.and_eq_true, beq_iff_eq] at h
+        obtain ⟨rfl, h⟩ := h
+        have hpair : Dyck [Ev.start t, Ev.stop t] := by simpa using Dyck.wrap t Dyck.nil
+        have := dyck_insert (ih st' h) hpair (st'.reverse.map Ev.start) w rfl
+        simpa [List.append_assoc] using this
+
 /-- While control looks for a label that GOTOs use, an accepted region body is skipped
 entirely: no jump lands inside a region. -/
 theorem safe_seek (o : Nat → Nat) {T : List Nat} {L : Nat} (hL : L ∈ T) :
@@ -517,8 +580,10 @@ theorem C28_dyck : C28_statement := by
   intro p hp o
   exact C28_dyck_of_accepted p (targets p) (fun _ h => h) (reachable_accepted hp) o
 
-/-- The stack-discipline checker used on the real instrumented code accepts every Dyck trace. -/
-theorem C28_dyck_checker {w : List Ev} (h : Dyck w) : dyckCheck [] w = true := dyck_check h
+/-- The stack-discipline checker that the harness runs on the traces of the real instrumented
+code (and that the gfortran stub library implements) decides exactly `Dyck`. -/
+theorem C28_dyck_iff_check (w : List Ev) : Dyck w ↔ dyckCheck [] w = true :=
+  ⟨dyck_check, fun h => by simpa using dyck_of_check w [] h⟩
 
 /-- No control transfer leaves an accepted region between its start and its end: its body
 always completes normally, so `PostEnd` is reached. -/
